@@ -8,8 +8,8 @@ from gen import i1_line, e_array
 from vlib import Result
 
 ID = "C07"
-LEAN_MODULES = ["NdInterp.Props.C07", "NdInterp.Props.RatTie", "NdInterp.Props.FormulaTie.SplEval", "NdInterp.Props.FormulaTie.PerWrap", "NdInterp.Props.FormulaTie.TabExt"]
-THEOREM_FILES = [("NdInterp/Props/C07.lean", "C07_"), ("NdInterp/Props/FormulaTie/SplEval.lean", "FT_spl_eval"), ("NdInterp/Props/FormulaTie/PerWrap.lean", "FT_per_wrap"), ("NdInterp/Props/FormulaTie/TabExt.lean", "FT_tab_")]
+LEAN_MODULES = ["NdInterp.Props.C07", "NdInterp.Props.RatTie", "NdInterp.Props.FormulaTie.SplEval", "NdInterp.Props.FormulaTie.PerWrap", "NdInterp.Props.FormulaTie.TabExt", "NdInterp.Props.FormulaTie.Ctl"]
+THEOREM_FILES = [("NdInterp/Props/C07.lean", "C07_"), ("NdInterp/Props/FormulaTie/SplEval.lean", "FT_spl_eval"), ("NdInterp/Props/FormulaTie/PerWrap.lean", "FT_per_wrap"), ("NdInterp/Props/FormulaTie/TabExt.lean", "FT_tab_"), ("NdInterp/Props/FormulaTie/Ctl.lean", "FT_ctl_")]
 RULE = ("Periodic boundary + extrapolation at Q, exact: n=3..12, uniform and non-uniform axes, 0..2 trailing axes; each case queries "
         "x, x + kP for k in {+-1, +-2, +-7, +-10^3, +-10^6} for in-range x incl. both ends and points next to them; oracle: all values "
         "of one class are identical and the images of the range ends equal the first (= last) data row. f64: the same with a tolerance "
